@@ -300,6 +300,9 @@ func (r *recorder) flush() {
 func replayAll[C any](t *testing.T, r *recorder, oracle func(C) Outcome) bool {
 	only := os.Getenv("VERIF_REPLAY")
 	var files []string
+	if os.Getenv("VERIF_NO_REPLAY") != "" && only == "" {
+		return true // sensitivity experiments: the generated search alone
+	}
 	if only != "" {
 		files = []string{only}
 	} else {
